@@ -57,7 +57,11 @@ def re_opaque(text: str) -> bool:
 
 
 def alternatives(o):
-    return list(o[1]) if o[0] == "phi" else [o]
+    if o[0] == "phi":
+        return [a for x in o[1] for a in alternatives(x)]
+    if o[0] == "ifexp":
+        return alternatives(o[2]) + alternatives(o[3])
+    return [o]
 
 
 def run(project, chk):
@@ -123,7 +127,7 @@ def run(project, chk):
         chk.check(good, "W2", parse.short, norm_text(c), project.loc(parse.module, c), "the parser's background is the context's rgb (or None when there is no valid context)", how=f"origin: {oshow(o)}",
                   message=f"the parser's background argument is {oshow(o)}: the pair's background does not reach the compositor")
         colour = b.get("color")
-        chk.check(colour is not None and norm_text(colour) == "self.original", "W2", parse.short, norm_text(c), project.loc(parse.module, c), "the colour parsed is the constructor's input", how="first argument is self.original",
+        chk.check(colour is not None and org.at(colour) == ("attr", ("param", "self"), "original"), "W2", parse.short, norm_text(c), project.loc(parse.module, c), "the colour parsed is the constructor's input", how="first argument is self.original",
                   message="the colour parsed is not the constructor's input")
 
     # ---------------------------------------------------------------- W5: the composite is what the optimiser is given
